@@ -155,6 +155,8 @@ def enum_variant_by_discr(prog, adt_name, value):
         return ["None", "Some"][value]
     if adt_name.startswith("std::result::Result") and value in (0, 1):
         return ["Ok", "Err"][value]
+    if adt_name.startswith("std::ops::ControlFlow") and value in (0, 1):
+        return ["Continue", "Break"][value]
     return None
 
 
@@ -896,3 +898,162 @@ def reach_bool(fn, start, avoid_edges=(), avoid_blocks=(), cap=200000):
                 blocks.add(tg)
                 dq.append(st)
     return blocks
+
+
+# ----------------------------------------------------------------------------- path-sensitive decision tables (v2)
+
+def _multi_def_locals(fn):
+    out = set()
+    for l, ds in fn.defs().items():
+        whole = [d for d in ds if (d[2] == "assign" and not d[3][3][1]) or (d[2] == "call" and not d[3][5][1])]
+        if len(whole) >= 2 or l == 0:
+            out.add(l)
+    return out
+
+
+def _sym_operand_env(fn, op, env):
+    if op[0] in "cm":
+        l, proj = op[1]
+        if l in env:
+            return ir._apply_proj(fn, env[l], proj, 0, frozenset())
+        # single-def temp copying a tracked local
+        ds = fn.defs().get(l, [])
+        if not proj and len(ds) == 1 and ds[0][2] == "assign":
+            rv = ds[0][3][4]
+            if rv[0] in ("use", "un", "bin", "agg", "ref") and _mentions_env(rv, env):
+                return _sym_rvalue_env(fn, rv, env)
+    return fn.sym_operand(op)
+
+
+def _mentions_env(rv, env):
+    def opl(op):
+        return op[0] in "cm" and op[1][0] in env
+    k = rv[0]
+    if k == "use":
+        return opl(rv[1])
+    if k == "ref":
+        return rv[2][0] in env
+    if k == "un":
+        return opl(rv[2])
+    if k == "bin":
+        return opl(rv[2]) or opl(rv[3])
+    if k == "agg":
+        return any(opl(o) for o in rv[3])
+    return False
+
+
+def _sym_rvalue_env(fn, rv, env):
+    k = rv[0]
+    if k == "use":
+        return _sym_operand_env(fn, rv[1], env)
+    if k == "ref":
+        return _sym_operand_env(fn, ["c", rv[2]], env)
+    if k == "un":
+        return ("un", rv[1], _sym_operand_env(fn, rv[2], env))
+    if k == "bin":
+        return ("bin", rv[1], _sym_operand_env(fn, rv[2], env), _sym_operand_env(fn, rv[3], env))
+    if k == "agg":
+        return ("agg", rv[1] + ":" + rv[2] if rv[2] else rv[1], tuple(_sym_operand_env(fn, o, env) for o in rv[3]), tuple(rv[4]) if rv[4] else None)
+    if k == "cast":
+        return ("cast", _sym_operand_env(fn, rv[2], env), rv[3])
+    return fn.sym_rvalue(rv)
+
+
+def decision_rows(fn, start=0, stop_blocks=None, cap=6000):
+    """Path-sensitive decision table: rows (conds, ret_sym) where conds = tuple of (cond_sym, outcome);
+    outcome is True/False for bool switches and ('is', variant) / ('not', (variants...)) for discriminant switches.
+    Values of multiply-defined locals (materialised booleans, the return place) are resolved along each path."""
+    tracked = _multi_def_locals(fn)
+    block_ev = {}
+    edge_ev = {}
+    nb = fn.normal_blocks()
+    for b in sorted(nb):
+        evs = []
+        for j, s in enumerate(fn.stmts(b)):
+            if s[2] == "=" and not s[3][1] and s[3][0] in tracked:
+                evs.append(("S", b, j))
+        t = fn.term(b)
+        if t[2] == "call" and not t[5][1] and t[5][0] in tracked:
+            evs.append(("SC", b))
+        if evs:
+            block_ev[b] = evs
+        if t[2] == "switch":
+            for (tg, lab) in fn.succ(b):
+                edge_ev[(b, tg, lab)] = [("T", b, lab[1])]
+    sets, capped = path_event_sets(fn, block_ev, edge_ev, start=start, stop_blocks=stop_blocks, cap=cap)
+    rows = {}
+    for ex, ss in sets.items():
+        for seq in ss:
+            env = {}
+            conds = []
+            # events are in path order, but block events of a block precede its out-edge event: replay in order
+            for e in seq:
+                if e[0] == "S":
+                    s = fn.stmts(e[1])[e[2]]
+                    env[s[3][0]] = _sym_rvalue_env(fn, s[4], env)
+                elif e[0] == "SC":
+                    t = fn.term(e[1])
+                    env[t[5][0]] = fn.sym_call(ir.Call(fn, e[1], t))
+                elif e[0] == "T":
+                    t = fn.term(e[1])
+                    cs = _sym_operand_env(fn, t[3], env)
+                    be = bool_edges(fn, e[1])
+                    if be is not None:
+                        conds.append((cs, e[2] == "otherwise"))
+                    else:
+                        c = strip(cs)
+                        if e[2] == "otherwise":
+                            names = []
+                            for (v, tg) in t[4]:
+                                names.append(_variant_name(fn, e[1], v))
+                            conds.append((c, ("not", tuple(names))))
+                        else:
+                            conds.append((c, ("is", _variant_name(fn, e[1], e[2]))))
+            ret = env.get(0)
+            key = (tuple((fmt_sym(c, maxdepth=14), str(o)) for c, o in conds), fmt_sym(ret, maxdepth=14) if ret else None)
+            rows[key] = (tuple(conds), ret)
+    return list(rows.values()), capped
+
+
+def _variant_name(fn, b, v):
+    ty = discr_type(fn, b)
+    if ty is None:
+        return v
+    base = ir.short(ty.lstrip("&").replace("mut ", ""))
+    if "<" in base:
+        base = base.split("<")[0]
+    nm = enum_variant_by_discr(fn.prog, base, v)
+    return nm if nm is not None else v
+
+
+def eval_bool(sym, atom_of, asg):
+    """Evaluate a boolean sym under an assignment of named atoms. atom_of(sym)->name|None.
+    Returns True/False, or None when the sym contains something that is neither an atom nor a connective."""
+    s = strip(sym)
+    n = atom_of(s)
+    if n is not None:
+        return asg.get(n)
+    k = s[0]
+    if k == "const" and isinstance(s[2], bool):
+        return s[2]
+    if k == "un" and s[1] == "Not":
+        v = eval_bool(s[2], atom_of, asg)
+        return None if v is None else (not v)
+    if k == "bin" and s[1] in ("BitAnd", "BitOr", "Eq", "Ne", "BitXor"):
+        a, b = eval_bool(s[2], atom_of, asg), eval_bool(s[3], atom_of, asg)
+        if a is None or b is None:
+            return None
+        return {"BitAnd": a and b, "BitOr": a or b, "Eq": a == b, "Ne": a != b, "BitXor": a != b}[s[1]]
+    if k == "agg" and len(s[2]) == 1 and (s[1].endswith("Result::Ok") or s[1].endswith("Option::Some")):
+        return eval_bool(s[2][0], atom_of, asg)
+    if k == "field" and s[2] == "0":
+        return eval_bool(s[1], atom_of, asg)
+    if k == "variant":
+        return eval_bool(s[1], atom_of, asg)
+    if k == "call" and s[4] == "std::ops::Try::branch" and s[2]:
+        return eval_bool(s[2][0], atom_of, asg)
+    if k == "call" and s[1].endswith(("Result::unwrap_or", "Option::unwrap_or")) and s[2]:
+        return eval_bool(s[2][0], atom_of, asg)
+    if k == "cast":
+        return eval_bool(s[1], atom_of, asg)
+    return None
